@@ -16,6 +16,8 @@ pub fn check_unit_interval<V: Float + UlpsEq, S: Into<String>>(
     if approx_ext::in_unit_interval(v) {
         Ok(())
     } else {
+        #[cfg(subjective_logic_verif)]
+        verif_hook::record(v.to_f64());
         Err(InvalidValueError(format!(
             "{} ∈ [0,1] is not satisfied",
             label.into()
@@ -31,9 +33,31 @@ pub fn check_is_one<V: Float + UlpsEq, S: Into<String>>(
     if approx_ext::is_one(v) {
         Ok(())
     } else {
+        #[cfg(subjective_logic_verif)]
+        verif_hook::record(v.to_f64());
         Err(InvalidValueError(format!(
             "{} = 1 is not satisfied",
             label.into()
         )))
+    }
+}
+
+/// Verification hook (only with `--cfg subjective_logic_verif`): remembers the value last
+/// rejected by `check_unit_interval` / `check_is_one` on this thread.
+#[cfg(subjective_logic_verif)]
+pub mod verif_hook {
+    use std::cell::Cell;
+
+    thread_local! {
+        static LAST_REJECTED: Cell<Option<f64>> = const { Cell::new(None) };
+    }
+
+    pub fn record(v: Option<f64>) {
+        LAST_REJECTED.with(|c| c.set(v));
+    }
+
+    /// Returns and clears the value last rejected on this thread.
+    pub fn take() -> Option<f64> {
+        LAST_REJECTED.with(|c| c.take())
     }
 }
